@@ -81,6 +81,7 @@ type callPlan struct {
 
 type passPlan struct {
 	Clean    bool
+	Restart  bool // new Agent instance + reopened ledger before this pass
 	Calls    []callPlan
 	CrashW   int
 	CrashC   int
@@ -96,6 +97,7 @@ func plan(h []histEv) (pre [][]envAct, passes []passPlan) {
 	var pend []envAct
 	crashed := false
 	settled := false
+	restart := false
 	closePass := func() {
 		if cur != nil {
 			cur.PostEnvs = append(cur.PostEnvs, pend...)
@@ -110,8 +112,11 @@ func plan(h []histEv) (pre [][]envAct, passes []passPlan) {
 			closePass()
 			pre = append(pre, idle)
 			idle = nil
-			cur = &passPlan{Clean: settled}
-			crashed = false
+			cur = &passPlan{Clean: settled, Restart: restart}
+			crashed, restart = false, false
+		case "restart":
+			closePass()
+			restart = true
 		case "settle":
 			closePass()
 			settled = true
@@ -191,6 +196,8 @@ type harness struct {
 	envMode     bool
 	hubState    map[int]string // last observed class per file
 	hubVanished map[int]bool
+
+	cancelPass context.CancelFunc // ends the running pass's context (scheduled "cancel" faults only)
 
 	res *scenResult
 }
@@ -509,6 +516,12 @@ func (t *loopTransport) PutFile(ctx context.Context, hubID string, entry *edgesy
 		return nil, fmt.Errorf("verif: file request: %w", rerr)
 	}
 	switch fault {
+	case "cancel":
+		// the pass context ends while the request is on the wire; it never reaches the hub
+		note(fault)
+		h.cancelPass()
+		h.callExit()
+		return nil, context.Canceled
 	case "dropBefore":
 		note(fault)
 		if h.callExit() {
@@ -549,6 +562,11 @@ func (t *loopTransport) PutFile(ctx context.Context, hubID string, entry *edgesy
 	h.mu.Unlock()
 	if h.callExit() {
 		return nil, errDead
+	}
+	if fault == "cancelAfter" {
+		note(fault)
+		h.cancelPass()
+		return nil, context.Canceled
 	}
 	if fault == "dropAfter" || fault == "shortDrop" {
 		if fault == "dropAfter" {
@@ -887,19 +905,45 @@ func runScenario(base string, sc scenario, nfiles int, seed int) (res *scenResul
 	}
 
 	tr := &loopTransport{h: h}
+	var agent *edgesync.Agent
 	runPass := func(pp *passPlan) (int, error) {
-		agent, err := edgesync.NewAgent(edgesync.AgentConfig{Ledger: ledger, Transport: tr, Backend: spokeBackend,
-			SpokeID: spokeID, MaxAttempts: maxAttempts, MaxConcurrent: 1, Logger: logger})
-		if err != nil {
-			return 0, err
+		if pp.Restart && agent != nil {
+			// graceful restart: the old process is gone, a new one opens the same SQLite file
+			db.Close()
+			var err error
+			if db, ledger, err = openLedger(); err != nil {
+				return 0, fmt.Errorf("reopen ledger at restart: %w", err)
+			}
+			agent = nil
+			h.applied("restart")
+		}
+		if agent == nil {
+			// ONE Agent instance per process lifetime: passes on the same instance until a crash / restart
+			var err error
+			agent, err = edgesync.NewAgent(edgesync.AgentConfig{Ledger: ledger, Transport: tr, Backend: spokeBackend,
+				SpokeID: spokeID, MaxAttempts: maxAttempts, MaxConcurrent: 1, Logger: logger})
+			if err != nil {
+				return 0, err
+			}
 		}
 		h.mu.Lock()
 		h.inPass, h.plan, h.w, h.c, h.callNo, h.crashed = true, pp, 0, 0, 0, false
 		before := len(h.res.Events)
 		h.mu.Unlock()
-		pctx, cancel := context.WithTimeout(ctx, 60*time.Second)
-		_, _ = agent.Run(pctx) // a pass that returns an error is a legitimate outcome (dropped reconcile, dead process)
-		timedOut := pctx.Err() != nil
+		// no deadline on the pass context: the only cancellation is the scheduled "cancel" fault; a hung pass is
+		// caught by the watchdog below and is an infrastructure failure, never a verdict
+		pctx, cancel := context.WithCancel(ctx)
+		h.mu.Lock()
+		h.cancelPass = cancel
+		h.mu.Unlock()
+		done := make(chan struct{})
+		go func() { _, _ = agent.Run(pctx); close(done) }() // an error return is a legitimate outcome (dropped reconcile, dead process)
+		timedOut := false
+		select {
+		case <-done:
+		case <-time.After(10 * time.Minute):
+			timedOut = true
+		}
 		cancel()
 		h.mu.Lock()
 		h.inPass = false
@@ -918,7 +962,7 @@ func runScenario(base string, sc scenario, nfiles int, seed int) (res *scenResul
 		n := len(h.res.Events) - before
 		h.mu.Unlock()
 		if timedOut {
-			return 0, fmt.Errorf("scenario %d: agent pass did not finish in 60 s", sc.ID)
+			return 0, fmt.Errorf("scenario %d: agent pass did not finish in 10 min", sc.ID)
 		}
 		if wasCrashed {
 			// the process is gone: nothing of it survives but the SQLite file
@@ -927,6 +971,7 @@ func runScenario(base string, sc scenario, nfiles int, seed int) (res *scenResul
 			if db, ledger, err = openLedger(); err != nil {
 				return 0, fmt.Errorf("reopen ledger after crash: %w", err)
 			}
+			agent = nil
 		}
 		for _, a := range pp.PostEnvs {
 			h.applyEnv(a)
